@@ -15,7 +15,7 @@ Open Scope Z_scope.
 
 #[export] Instance eta_world : Settable _ := settable! mkWorld
   <w_swaps_allowed; w_liquid_enabled; w_bitcoin_enabled; w_min_amount_msat; w_peer_allowed;
-   w_peer_suspicious; w_wallet_asset; w_wallet_network; w_csv_height; w_premium; w_own_pubkey; w_decode; w_hashes;
+   w_peer_suspicious; w_wallet_asset; w_wallet_network; w_csv_height; w_premium; w_own_pubkey; w_hashes;
    q_height; q_send; q_store; q_pay; q_recover_pay; q_payfee; q_mkinvoice; q_fee_est; q_balance;
    q_spendable; q_probe; q_create_opening; q_spend; q_script; q_validate; q_addsender;
    q_addsusp; q_preimage; q_blind; w_overrun>.
@@ -34,24 +34,24 @@ Definition Ev_Panic : string := "PANIC".
 (* not a Go event: the generated table names an action the model does not know *)
 Definition Ev_Unknown : string := "UNKNOWN_ACTION".
 
-(* ---------- the step monad: world (queues are consumed) + effects emitted ---------- *)
-Definition M (A : Type) : Type := world -> list effect -> A * world * list effect.
-Definition ret {A} (a : A) : M A := fun w es => (a, w, es).
+(* ---------- the step monad: the world's queues are consumed, effects are emitted ---------- *)
+Definition M (A : Type) : Type := world -> A * world * list effect.
+Definition ret {A} (a : A) : M A := fun w => (a, w, []).
 Definition bind {A B} (m : M A) (f : A -> M B) : M B :=
-  fun w es => let '(a, w', es') := m w es in f a w' es'.
+  fun w => let '(a, w1, e1) := m w in let '(b, w2, e2) := f a w1 in (b, w2, e1 ++ e2).
 Notation "x <- m ;; f" := (bind m (fun x => f)) (at level 61, m at next level, right associativity).
 Notation "m ;;; f" := (bind m (fun _ => f)) (at level 61, right associativity).
-Definition emit (e : effect) : M unit := fun w es => (tt, w, es ++ [e]).
-Definition ask {A} (f : world -> A) : M A := fun w es => (f w, w, es).
+Definition emit (e : effect) : M unit := fun w => (tt, w, [e]).
+Definition ask {A} (f : world -> A) : M A := fun w => (f w, w, []).
 
 Definition overrun (w : world) : world := w <| w_overrun := true |>.
 
 (* pop the head of a queue; an empty queue yields the default and sets w_overrun *)
 Definition pop {A} (get : world -> list A) (put : list A -> world -> world) (dflt : A) : M A :=
-  fun w es => match get w with
-              | x :: r => (x, put r w, es)
-              | [] => (dflt, overrun w, es)
-              end.
+  fun w => match get w with
+           | x :: r => (x, put r w, [])
+           | [] => (dflt, overrun w, [])
+           end.
 
 Definition pop_height : M (option Z) := pop q_height (fun r w => w <| q_height := r |>) None.
 Definition pop_send : M bool := pop q_send (fun r w => w <| q_send := r |>) false.
@@ -81,8 +81,6 @@ Fixpoint assoc_str {A} (k : string) (l : list (string * A)) : option A :=
   | (k', v) :: r => if String.eqb k k' then Some v else assoc_str k r
   end.
 
-Definition decode_payreq (payreq : string) : M (option (string * Z * Z)) :=
-  ask (fun w => assoc_str payreq (w_decode w)).
 
 (* ---------- derived getters that need the world (crypto is not modelled) ---------- *)
 Definition payment_hash (w : world) (d : swap_data) : string :=
@@ -190,7 +188,7 @@ Fixpoint pay_loop (n : nat) (pol : tl_policy) (payreq : string) (d : swap_data) 
       else if String.eqb (get_chain d) lbtc_chain && negb (check_payment_window d now pol) then fail d
       else
         r <- pop q_pay (fun r w => w <| q_pay := r |>) None ;;
-        emit (EPayClaim payreq (get_scid d) (p_max_total pol) r) ;;;
+        emit (EPayClaim payreq (get_scid d) (p_max_total pol) now r) ;;;
         match r with
         | None => pay_loop n' pol payreq d
         | Some pre => succeed (d <| d_claim_preimage := pre |>)
@@ -206,6 +204,8 @@ Definition first_child (l : list action_tree) : option action_tree :=
 
 Section Exec.
 Variable tc : tl_consts.
+(* BOLT-11 decoding is a pure function of the invoice string: (hash, msat, final cltv); None = error *)
+Variable decode : string -> option (string * Z * Z).
 
 Definition act_create_swap_request (d : swap_data) : M (string * swap_data) :=
   a <- set_anchor tc d ;;
@@ -381,8 +381,7 @@ Definition act_pay_fee_invoice (d : swap_data) : M (string * swap_data) :=
   if negb (chain_known d) then fail d else
   match d_out_agr d, d_out_req d with
   | Some a, Some r =>
-    dec <- decode_payreq (oa_payreq a) ;;
-    match dec with
+    match decode (oa_payreq a) with
     | None => fail d
     | Some (_, msat, _) =>
       s <- pop_spendable ;;
@@ -436,8 +435,7 @@ Definition act_await_tx_confirmation (d : swap_data) : M (string * swap_data) :=
     match d_otb d with
     | None => panic d
     | Some o =>
-      dec <- decode_payreq (ob_payreq o) ;;
-      match dec with
+      match decode (ob_payreq o) with
       | None => fail d
       | Some (hash, msat, cltv) =>
         match get_claim_amount d with
